@@ -82,12 +82,19 @@ def run_shard(args):
         "harness_errors": [],
     }
     state = {"first_fail": None, "best_sha": None}
+    os.makedirs(os.path.join(VERIF, "failures", ".inflight"), exist_ok=True)
+    inflight = os.path.join(VERIF, "failures", ".inflight", f"{prop}_{shard}.json")
 
     def body(case):
         if state["first_fail"] is not None and time.time() - state["first_fail"] > shrink_budget:
             if X.sha(case) != state["best_sha"]:
                 return
         res["evaluations"] += 1
+        try:
+            with open(inflight, "w") as fh:  # so that a crash of this process can be attributed
+                json.dump(case, fh)
+        except Exception:
+            pass
         old = signal.signal(signal.SIGALRM, _alarm)
         signal.alarm(timeout)
         try:
@@ -200,6 +207,17 @@ def write_evidence(prop, tier, seed, level, coverage, wall, violations, assumpti
         json.dump(ev, f, indent=1, default=str)
 
 
+def _entry(job, conn):
+    try:
+        out = replay_phase(job[1]) if job[0] == "replay" else run_shard(job)
+    except BaseException:
+        out = traceback.format_exc()[-3000:]
+    try:
+        conn.send(out)
+    finally:
+        conn.close()
+
+
 def replay_phase(prop: str):
     """1. open known findings: witnesses must still fail with their signature;
     2. fixed findings and committed regression cases must pass."""
@@ -245,7 +263,27 @@ def main(prop: str, tier: str, seed: int, replay: str | None = None) -> int:
     known = load_known()
 
     if replay:
-        sig, detail = replay_file(prop, replay)
+        # in a child process: generated C code may kill the interpreter
+        ctx = mp.get_context("fork")
+        rd, wr = ctx.Pipe(False)
+
+        def _rp(conn):
+            try:
+                conn.send(replay_file(prop, replay))
+            except BaseException:
+                conn.send(("__harness__", traceback.format_exc()[-3000:]))
+
+        pr = ctx.Process(target=_rp, args=(wr,))
+        pr.start()
+        wr.close()
+        try:
+            sig, detail = rd.recv()
+        except EOFError:
+            sig, detail = f"{prop}:process-killed-while-running-generated-code:exit{pr.exitcode}", {}
+        pr.join()
+        if sig == "__harness__":
+            print(detail, file=sys.stderr)
+            return 2
         if sig is None:
             print(f"replay {replay}: property held")
             return 0
@@ -264,10 +302,30 @@ def main(prop: str, tier: str, seed: int, replay: str | None = None) -> int:
     per = max(1, total // nshards)
     jobs = [(prop, tier, seed, i, per) for i in range(nshards)]
     ctx = mp.get_context("fork")
-    with ctx.Pool(nshards) as pool:
-        rep = pool.apply_async(replay_phase, (prop,))
-        results = pool.map(run_shard, jobs, chunksize=1)
-        violations, known_lines, replayed, notes = rep.get()
+    procs = []
+    for job in [("replay", prop)] + jobs:
+        rd, wr = ctx.Pipe(False)
+        pr = ctx.Process(target=_entry, args=(job, wr))
+        pr.start()
+        wr.close()
+        procs.append((job, pr, rd))
+    results = []
+    crashed = []
+    violations, known_lines, replayed, notes = [], [], 0, []
+    for job, pr, rd in procs:
+        payload = None
+        try:
+            payload = rd.recv()  # blocks until the child sends or dies (EOF)
+        except EOFError:
+            payload = None
+        pr.join()
+        if payload is None or isinstance(payload, str):
+            crashed.append((job, pr.exitcode, payload))
+            continue
+        if job[0] == "replay":
+            violations, known_lines, replayed, notes = payload
+        else:
+            results.append(payload)
     for ln in known_lines:
         print(ln)
     for ln in notes:
@@ -291,6 +349,28 @@ def main(prop: str, tier: str, seed: int, replay: str | None = None) -> int:
         for sig, f in r["failures"].items():
             if sig not in fails or f["size"] < fails[sig]["size"]:
                 fails[sig] = f
+
+    # a worker that died (segfault / SIGFPE in generated C code ...): the case it was running
+    for job, code, tb in crashed:
+        if tb is not None:
+            harness.append({"case": None, "traceback": tb})
+            continue
+        if job[0] == "replay":
+            harness.append({"case": None, "traceback": f"replay worker died with exit code {code}"})
+            continue
+        path = os.path.join(VERIF, "failures", ".inflight", f"{prop}_{job[3]}.json")
+        try:
+            with open(path) as fh:
+                case = json.load(fh)
+        except Exception:
+            harness.append({"case": None, "traceback": f"shard {job[3]} died with exit code {code}, no in-flight case"})
+            continue
+        sig = f"{prop}:process-killed-while-running-generated-code:exit{code}"
+        k = match_known(known, prop, sig)
+        if k is not None:
+            excluded[k["signature"]] += 1
+        else:
+            fails[sig] = {"case": case, "detail": {"exitcode": code, "note": "the worker process died while this case was running"}, "size": len(X.canon(case))}
 
     # 4. optional non-hypothesis part (corpus, subprocess batches ...)
     extra_cov = {}
